@@ -160,6 +160,13 @@ impl C19 {
         );
         // Which ops of other threads was each fault step inside of?
         let mut landed_any = false;
+        for o in run.case.threads.iter().flatten() {
+            if let Op::Fault(Fault::Rewrite { abandon, .. }) = o {
+                if *abandon != 0 {
+                    stats.add("fault.writer_crash_mid_rewrite.generated", 1);
+                }
+            }
+        }
         for &(seq, kind, _) in run.fault_steps.iter() {
             let key_gen: &'static str = fault_key(kind, false);
             stats.add(key_gen, 1);
@@ -335,7 +342,13 @@ impl Prop for C19 {
         let mut ostats = oracle::OracleStats::default();
         if harness_error.is_none() {
             let mut o = oracle::Oracle::new(&run, &events);
+            // Testing aid (never set by the registered commands): ignore
+            // some clauses to see which *other* clauses catch a change.
+            let skip = std::env::var("JIFFSIM_SKIP_CLAUSES").unwrap_or_default();
             for v in o.check(&out.abort, abort_site) {
+                if !skip.is_empty() && skip.split(',').any(|c| c == v.clause) {
+                    continue;
+                }
                 violations.push(Violation {
                     clause: v.clause.to_string(),
                     detail: match v.op {
